@@ -153,7 +153,7 @@ def rule(program, rep, rule_id, modules):
                     continue
                 rep.bad(rule_id, "%s:%s" % (mname, q), "statement without "
                         "effect", "%s, line %d: %s - the statement changes "
-                        "nothing" % (q, st.lineno, what), st)
+                        "nothing" % (q, st.lineno, what), st, positive=True)
             for c, what in identity_with_values(d):
                 owner = c
                 while owner is not None and not isinstance(
@@ -162,7 +162,7 @@ def rule(program, rep, rule_id, modules):
                 if owner is d:
                     rep.bad(rule_id, "%s:%s" % (mname, q), "identity with a "
                             "value", "%s, line %d: %s" % (q, c.lineno, what),
-                            c)
+                            c, positive=True)
     rep.ok(rule_id, ",".join(sorted(modules)) or "-",
            "%d function(s): no statement computes a value only to drop it"
            % n)
